@@ -157,10 +157,7 @@ func r052(c *an.Ctx) {
 	}
 	var unknownRej, readOnlyRej []*ssa.Return
 	badCode := ""
-	for _, r := range an.Returns(fn) {
-		if provablyNilAt(r.Results[0], r) {
-			continue
-		}
+	for _, r := range errorReturnsDeep(fn) {
 		var hasU, hasW, hasReset, invalidEdge bool
 		for _, e := range an.GuardingEdges(r) {
 			if fieldTest(e, "updateMask", true) {
@@ -258,7 +255,15 @@ func r052(c *an.Ctx) {
 	}
 	// a write without update mask is accepted: the nil edge leads to a nil return without passing a rejection
 	okNil := false
-	for _, b := range fn.Blocks {
+	scope := map[*ssa.Function]bool{fn: true}
+	for _, r := range errorReturnsDeep(fn) {
+		scope[r.Parent()] = true
+	}
+	var blocks []*ssa.BasicBlock
+	for f := range scope {
+		blocks = append(blocks, f.Blocks...)
+	}
+	for _, b := range blocks {
 		iff, ok := b.Instrs[len(b.Instrs)-1].(*ssa.If)
 		if !ok {
 			continue
